@@ -216,3 +216,9 @@ package safehtml
 //@   ensures unchanged: len(r.str) >= len(t.str)
 //@   loop 1
 //@     invariant forall(j, 0, len(stringParams), inlang(PairLang, at(stringParams, j)))
+
+//@ func TrustedResourceURLFormatFromConstant(format stringConstant, args map[string]string) (r TrustedResourceURL, err error)
+//@   serves C13
+//@   ensures prefix: isnil(err) ==> inlang(re_safeTrustedResourceURLPrefixPattern, format)
+//@   ensures unsafe: !inlang(re_safeTrustedResourceURLPrefixPattern, format) ==> !isnil(err) && len(r.str) == 0
+//@   ensures hostkept: isnil(err) && !(len(format) >= 2 && format[0] == '/' && format[1] == '/') ==> !(len(r.str) >= 2 && r.str[0] == '/' && r.str[1] == '/')
